@@ -365,7 +365,31 @@ def invalid_cases(draw):
         else:
             bad = [w, e, math.nextafter(s, math.inf), s]
     func = draw(st.sampled_from(["check_region", "inside", "scatter_points", "grid_coordinates", "block_split", "grid"]))
-    return dict(kind=kind, region=bad, func=func, good=region)
+    case = dict(kind=kind, region=bad, func=func, good=region)
+    if kind in ("W>E", "S>N") and draw(st.integers(0, 2)) == 0:
+        # whole-number bounds handed over as one array of a narrow integer type (pixel or degree bounds read from a header)
+        dtype = draw(st.sampled_from(INT_REGION_DTYPES))
+        w, e, s, n = draw(int_region(dtype))
+        case.update(region=[e, w, s, n] if kind == "W>E" else [w, e, n, s], good=[w, e, s, n], dtype=dtype)
+    elif draw(st.booleans()):
+        case["form"] = draw(st.sampled_from(["tuple", "array"]))
+    return case
+
+
+INT_REGION_DTYPES = ["uint8", "int8", "uint16", "int16", "uint32", "int32", "int64"]
+
+
+@st.composite
+def int_region(draw, dtype):
+    """a valid region W < E, S < N of whole numbers that fit dtype, often spanning more than half of its range"""
+    info = np.iinfo(dtype)
+    lo, hi = max(int(info.min), -10**6), min(int(info.max), 10**6)
+    pairs = []
+    for _ in range(2):
+        a = draw(st.one_of(st.integers(lo, hi - 1), st.sampled_from([lo, lo + 1, 0 if lo < 0 else lo])))
+        b = draw(st.one_of(st.integers(a + 1, hi), st.just(hi), st.just(min(hi, a + 1))))
+        pairs += [a, b]
+    return pairs
 
 
 class _Flat(vd.base.BaseGridder):
@@ -375,6 +399,12 @@ class _Flat(vd.base.BaseGridder):
 
 def check_invalid(case, ctx):
     bad, func = case["region"], case["func"]
+    if case.get("dtype"):
+        bad = np.array(bad, dtype=case["dtype"])
+    elif case.get("form") == "tuple":
+        bad = tuple(bad)
+    elif case.get("form") == "array":
+        bad = np.array(bad, dtype="float64")
     w, e, s, n = case["good"]
     pts = (np.array([w, e, (w + e) / 2]), np.array([s, n, (s + n) / 2]))
     calls = {
@@ -388,10 +418,54 @@ def check_invalid(case, ctx):
     try:
         result = calls[func]()
     except Exception:  # noqa: BLE001 - "rejected": any error
-        ctx.label(case["kind"], func)
+        ctx.label(case["kind"], func, "region_as_%s" % (case.get("dtype") or case.get("form") or "list"))
         ctx.nt(True)
         return
     raise Violation("%s accepted the invalid region %r (%s) and returned %r" % (func, bad, case["kind"], result))
+
+
+# -------------------------------------------------------------- the forms a valid region comes in
+@st.composite
+def region_form_cases(draw):
+    dtype = draw(st.sampled_from(INT_REGION_DTYPES))
+    return dict(dtype=dtype, region=draw(int_region(dtype)), form=draw(st.sampled_from(["array_dtype", "array_dtype", "list", "array_float", "numpy_scalars"])),
+                fracs=[[draw(st.sampled_from([-0.5, 0.0, 0.25, 0.5, 1.0, 1.5])), draw(st.sampled_from([-0.5, 0.0, 0.25, 0.5, 1.0, 1.5]))] for _ in range(6)])
+
+
+def check_region_forms(case, ctx):
+    """A valid region of whole numbers is the same region as a list, a float array, numpy scalars or one array of a (narrow)
+    integer type: accepted by everything that takes a region, with the results of the tuple of Python numbers."""
+    w, e, s, n = case["region"]
+    ref = (float(w), float(e), float(s), float(n))
+    dtype = case["dtype"]
+    region = {"array_dtype": lambda: np.array(case["region"], dtype=dtype), "list": lambda: list(case["region"]), "array_float": lambda: np.array(ref),
+              "numpy_scalars": lambda: tuple(np.dtype(dtype).type(v) for v in case["region"])}[case["form"]]()
+    px = np.array([w + f[0] * (e - w) for f in case["fracs"]], dtype="float64")
+    py = np.array([s + f[1] * (n - s) for f in case["fracs"]], dtype="float64")
+    try:
+        vd.coordinates.check_region(region)
+    except Exception as exc:  # noqa: BLE001
+        raise Violation("check_region rejected the valid region %r given as %s (%s): %s" % (case["region"], case["form"], dtype, exc))
+    got = np.asarray(vd.inside((px, py), region))
+    exp = (px >= w) & (px <= e) & (py >= s) & (py <= n)
+    ctx.check(np.array_equal(got, exp), "inside with the region %r given as %s (%s): %r, the closed box says %r", case["region"], case["form"], dtype, got.tolist(), exp.tolist())
+    ge, gn = vd.grid_coordinates(region, shape=(3, 4))
+    re_, rn = vd.grid_coordinates(ref, shape=(3, 4))
+    ctx.check(np.array_equal(ge, re_) and np.array_equal(gn, rn), "grid_coordinates with the region %r given as %s (%s) differs from the same region given as Python floats: easting %r vs %r",
+              case["region"], case["form"], dtype, np.asarray(ge)[0].tolist(), re_[0].tolist())
+    se, sn = vd.scatter_points(region, 7, random_state=3)
+    fe, fn = vd.scatter_points(ref, 7, random_state=3)
+    ctx.check(np.allclose(se, fe, rtol=1e-13, atol=0) and np.allclose(sn, fn, rtol=1e-13, atol=0) and np.all(vd.inside((se, sn), ref)),
+              "scatter_points with the region %r given as %s (%s) differs from the same region given as Python floats", case["region"], case["form"], dtype)
+    info = np.iinfo(dtype)
+    if case["form"] in ("array_dtype", "numpy_scalars") and not (min(w, s) - 2 >= info.min and max(e, n) + 2 <= info.max):
+        ctx.label("padded_bounds_outside_the_dtype")  # numpy arithmetic in the caller's own integer type cannot hold the padded bound: not pad_region's doing
+        ctx.nt(True)
+        return
+    pw, pe_, ps, pn = vd.pad_region(region, 2)
+    ctx.check((float(pw), float(pe_), float(ps), float(pn)) == (w - 2.0, e + 2.0, s - 2.0, n + 2.0), "pad_region(%r as %s (%s), 2) = %r", case["region"], case["form"], dtype, (pw, pe_, ps, pn))
+    ctx.label(case["form"], dtype, "wide" if (e - w) > info.max // 2 or (n - s) > info.max // 2 else "narrow")
+    ctx.nt(case["form"] in ("array_dtype", "numpy_scalars"))
 
 
 # -------------------------------------------------------------- large inputs (vectorised oracle)
@@ -445,6 +519,8 @@ SUBCHECKS = [
         doc="inside / get_region on 20 000 - 200 000 points (1-D and 2-D) against the vectorised closed-box predicate"),
     Sub("maxabs", check_maxabs, strategy=maxabs_cases(), quick=800, thorough=3000,
         doc="largest absolute value over all arrays, NaN-aware by default"),
+    Sub("region_forms", check_region_forms, strategy=region_form_cases(), quick=300, thorough=1500,
+        doc="valid whole-number regions given as lists, float arrays, numpy scalars or arrays of (narrow) integer types behave like the tuple of Python numbers"),
     Sub("invalid_regions", check_invalid, strategy=invalid_cases(), quick=400, thorough=1500, shards_thorough=4,
         doc="W > E, S > N and wrong-length regions are rejected by every public function that validates regions"),
 ]
